@@ -5,3 +5,4 @@ CONSTANTS NB = 2
 INVARIANT Inv
 PROPERTY ActionProps
 CHECK_DEADLOCK FALSE
+VIEW View
